@@ -212,6 +212,11 @@ Proof.
   intros HI Hts. destruct (crun_env_inv evs s ts HI Hts) as [HI' _]. cbn zeta.
   split; [exact HI'|exact (inv_spec g0 G0 Pc _ HI')].
 Qed.
+
+(* readers that take the read lock see only states after prefixes of the schedule *)
+Lemma locked_readers s ts evs n : InvC s -> Forall thread_ok ts ->
+  let r := locked_reader_state true g0 s ts evs n in InvC r /\ Spec g0 r.
+Proof. intros HI Hts. apply locked_schedules_env; assumption. Qed.
 End Locked.
 
 (* ---------------------------------------------------------------- check-then-act is refuted *)
